@@ -685,6 +685,9 @@ def wash_template(ctx) -> None:
         if sub is not None:
             ok = isinstance(t, ast.Subscript) and isinstance(t.slice, ast.Constant) and t.slice.value == sub
             core = t.value if ok else t
+            if not ok and is_sym(t, "unpack") and is_sym(t.args[0], "unpack") and isinstance(t.args[1], ast.Constant) and t.args[1].value == sub:
+                # grid, site = location   instead of   location[0], location[1]
+                ok, core = True, t.args[0]
         else:
             ok = True
         ok = ok and is_sym(core, "unpack") and isinstance(core.args[0], ast.Call) and call_fname(core.args[0]) == "prepare_evo_wash_parameters" and core.args[1].value == WASH_ORDER.index(name)
